@@ -1,14 +1,63 @@
 import PbVerif.Model.Proto
 import PbVerif.Model.Loess
+import PbVerif.Model.LoessKern
 namespace PbVerif.Drv.C19
-open PbVerif PbVerif.Proto PbVerif.Loess
+open PbVerif PbVerif.Proto PbVerif.Loess PbVerif.LoessKern
 
 def parsePair? (s : String) : Option (Nat × Nat) :=
   match s.splitOn "," with
   | [a, b] => do some ((← a.toNat?), (← b.toNat?))
   | _ => none
 
+def fbits? (s : String) : Option Float := s.toNat?.map fun n => Float.ofBits (UInt64.ofNat n)
+def showF (l : List Float) : String := if l.isEmpty then "-" else ",".intercalate (l.map fun f => toString f.toBits.toNat)
+
+def parsePairs? (s : String) : Option (List (Nat × Nat)) :=
+  if s = "-" then some [] else (s.splitOn ";").mapM parsePair?
+
+/-- `;`-separated rows of `,`-separated rationals -/
+def parseRows? (s : String) : Option (List (List Rat)) :=
+  if s = "-" then some [] else (s.splitOn ";").mapM (parseList? parseRat?)
+
+def showRows (rows : List (List Rat)) : String :=
+  if rows.isEmpty then "-" else ";".intercalate (rows.map fun r => if r.isEmpty then "x" else showRats r)
+
+def showOpt (l : List (Option Rat)) : String :=
+  if l.isEmpty then "-" else ",".intercalate (l.map fun | none => "n" | some v => showRat v)
+
+def showOut (r : Out Rat) : String := s!"{showOpt r.baseline}|{showRows r.coefs}"
+
+/-- the driver's rational instance: square roots to 2⁻¹²⁸, exact solve -/
+def qNum : Num Rat := ratNum (sqrtApprox 128)
+
 def handle : List String → Option String
+  -- the kernel vectors of every (fit, window) pair in IEEE doubles (bit patterns in and out)
+  | ["c19.kernf", fits, wins, xs] => do
+      let xs ← parseList? fbits? xs
+      let fits ← parseList? String.toNat? fits
+      let wins ← parsePairs? wins
+      some (";".intercalate ((fits.zip wins).map fun p => showF (kernelOf floatNum xs p.1 p.2.1 p.2.2)))
+  -- two iterations of both strategies in exact rationals:
+  --   pass 1 on (y1, w1) with zero coefs, pass 2 on (y2, w2) with the coefs left by pass 1
+  | ["c19.loops", po, fits, wins, xs, vander, y1, w1, y2, w2] => do
+      let po ← po.toNat?
+      let fits ← parseList? String.toNat? fits
+      let wins ← parsePairs? wins
+      let xs ← parseList? parseRat? xs
+      let vander ← parseRows? vander
+      let y1 ← parseList? parseRat? y1
+      let w1 ← parseList? parseRat? w1
+      let y2 ← parseList? parseRat? y2
+      let w2 ← parseList? parseRat? w2
+      let n := xs.length
+      let z := List.replicate n (List.replicate (po + 1) (0 : Rat))
+      let f1 := firstLoop qNum solveExact xs y1 w1 z vander n wins fits (List.replicate n [])
+      let l1 := lowMemory qNum solveExact xs y1 w1 z vander n wins fits
+      let n2 := nonfirstLoops qNum solveExact y2 w2 f1.2.coefs vander f1.1 wins n fits
+      let l2 := lowMemory qNum solveExact xs y2 w2 l1.coefs vander n wins fits
+      let eq1 := if f1.2 = l1 then "1" else "0"
+      let eq2 := if n2 = l2 then "1" else "0"
+      some s!"{eq1}{eq2}|{showRows f1.1}|{showOut l1}|{showOut l2}"
   | ["c19.fits", tp, delta, xs] => do
       let xs ← parseList? parseRat? xs
       let r := determineFitsX xs (← tp.toNat?) (← parseRat? delta)
